@@ -5,6 +5,7 @@ Three-way correspondence on every case: real strax  vs  extracted algorithmic mo
 The driver prints "model | spec [| spec2]" per case; the implementation result is rendered in
 the same format as the model segment.
 """
+import gc
 import itertools
 import multiprocessing
 import os
@@ -363,6 +364,21 @@ def judge(case, im, mo):
         rows = case[1]
         nontriv = len(rows) >= 3 and len({(r[0], r[3]) for r in rows}) < len(rows)
         dist = "fast-key" if sbt_fast(rows) else "fallback"
+        if im.startswith("ok"):
+            byid = {r[2]: r for r in rows}
+            ids_ = [int(x) for x in toks(im)[1:]]
+            if len(byid) == len(rows):      # ids identify rows
+                if sorted(ids_) != sorted(byid):
+                    claim(False, "sort_by_time lost or duplicated rows: " + im[:80])
+                else:
+                    out = [byid[i] for i in ids_]
+                    claim(all((a[0], a[3]) <= (b[0], b[3]) for a, b in zip(out, out[1:])),
+                          "sort_by_time output is not sorted by (time, channel): " + im[:80])
+                    if sbt_fast(rows):
+                        claim(out == sorted(rows, key=lambda r: (r[0], r[3])),
+                              "sort_by_time is not the stable sort by (time, channel): " + im[:80])
+        else:
+            claim(False, "sort_by_time raised: " + im[:80])
     elif u in ("ssort", "sargsort"):
         if case[1] != 0:
             dist = "rejected" if im == "E5" else "malformed-accepted"
@@ -402,7 +418,9 @@ def judge(case, im, mo):
 def evaluate(cases, enc_shift=0, both_enc=False):
     lines = [line_of(c) for c in cases]
     mout = lib.run_model("C17", lines)
-    res = {"n": 0, "dist": Counter(), "nontriv": set(), "findings": [], "t1": None, "sbt": [], "samples": []}
+    res = {"n": 0, "dist": Counter(), "nontriv": {}, "findings": [], "t1": None, "sbt": [], "samples": []}
+    nt = {}
+    fcount = Counter()
     for idx, (c, mo) in enumerate(zip(cases, mout)):
         encs = ENCS if both_enc else (ENCS[(idx + enc_shift) % 2],)
         if c[0] in ("oi", "ssort", "sargsort"):
@@ -413,25 +431,27 @@ def evaluate(cases, enc_shift=0, both_enc=False):
             res["n"] += 1
             res["dist"][c[0] + ":" + dist] += 1
             if nontriv:
-                res["nontriv"].add((c[0], hash(lib.canon(c))))
+                nt.setdefault(c[0], set()).add(hash(lib.canon(c)))
             if dist == "T1-literal-differs" and (res["t1"] is None or len(lib.canon(c)) < len(lib.canon(res["t1"][0]))):
                 res["t1"] = (c, im, mo)
             if c[0] == "sbt":
                 res["sbt"].append((c, im, mo))
             for sev, what in f:
-                if len(res["findings"]) < 40:
+                if fcount[(c[0], sev)] < 3:
+                    fcount[(c[0], sev)] += 1
                     res["findings"].append((sev, what, c, enc, im, mo))
     if cases:
         res["samples"].append((cases[len(cases) // 2], mout[len(cases) // 2]))
+    res["nontriv"] = {u: np.fromiter(v, dtype=np.int64, count=len(v)) for u, v in nt.items()}
     return res
 
 
 _G = {}
 
 
-def _pair_cases(things, cs, idx, sbc_every):
+def _pair_cases(things, cs, idx, sbc_every, all_windows=True):
     out = [("fc", things, cs), ("atp", things, cs)]
-    for w in WINDOWS:
+    for w in (WINDOWS if all_windows else WINDOWS[idx % 2::2]):
         out.append(("tw", w, things, cs))
     if idx % sbc_every == 0:
         out.append(("sbc", things, cs))
@@ -441,12 +461,12 @@ def _pair_cases(things, cs, idx, sbc_every):
 
 def _pair_task(args):
     name, lo, hi = args
-    TH, CS, sbc_every, units = _G[name]
+    TH, CS, sbc_every, units, all_windows = _G[name]
     cases = []
     for ti in range(lo, hi):
         for ci, cs in enumerate(CS):
             idx = ti * len(CS) + ci
-            pc = _pair_cases(TH[ti], cs, idx, sbc_every)
+            pc = _pair_cases(TH[ti], cs, idx, sbc_every, all_windows)
             if units:
                 pc = [c for c in pc if c[0] in units and (c[0] != "tw" or c[1] in units[c[0]])]
             cases += pc
@@ -461,22 +481,48 @@ def _list_task(args):
 def merge(acc, r):
     acc["n"] += r["n"]
     acc["dist"].update(r["dist"])
-    acc["nontriv"] |= r["nontriv"]
-    acc["findings"] += r["findings"][: max(0, 60 - len(acc["findings"]))]
+    for u, arr in r["nontriv"].items():
+        acc["nontriv"].setdefault(u, []).append(arr)
+    for x in r["findings"]:
+        k = (x[2][0], x[0])
+        cur = [y for y in acc["findings"] if (y[2][0], y[0]) == k]
+        if len(cur) < 6:
+            acc["findings"].append(x)
+        else:
+            # keep the smallest inputs (deterministic whatever the task order)
+            worst = max(cur, key=lambda y: (len(lib.canon(y[2])), lib.canon(y[2])))
+            if (len(lib.canon(x[2])), lib.canon(x[2])) < (len(lib.canon(worst[2])), lib.canon(worst[2])):
+                acc["findings"].remove(worst)
+                acc["findings"].append(x)
     if r["t1"] is not None and (acc["t1"] is None or len(lib.canon(r["t1"][0])) < len(lib.canon(acc["t1"][0]))):
         acc["t1"] = r["t1"]
     acc["sbt"] += r["sbt"]
     acc["samples"] += r["samples"][:1]
 
 
-def run_pool(tasks, fn, nproc):
-    acc = {"n": 0, "dist": Counter(), "nontriv": set(), "findings": [], "t1": None, "sbt": [], "samples": []}
+def _dispatch(task):
+    return task[0](task[1])
+
+
+def _worker_init():
+    gc.disable()
+
+
+def run_pool(tasks, nproc):
+    """tasks: list of (function, args); one fork pool for all of them"""
+    acc = {"n": 0, "dist": Counter(), "nontriv": {}, "findings": [], "t1": None, "sbt": [], "samples": []}
     if not tasks:
         return acc
+    gc.collect()
+    gc.freeze()
     ctxm = multiprocessing.get_context("fork")
-    with ctxm.Pool(nproc) as pool:
-        for r in pool.imap(fn, tasks):
+    with ctxm.Pool(nproc, initializer=_worker_init) as pool:
+        for r in pool.imap_unordered(_dispatch, tasks, chunksize=1):
             merge(acc, r)
+    gc.unfreeze()
+    acc["findings"].sort(key=lambda x: (x[0], len(lib.canon(x[2])), lib.canon(x[2])))
+    acc["sbt"].sort(key=lambda x: lib.canon(x[0]))
+    acc["samples"].sort(key=lambda x: lib.canon(x[0]))
     return acc
 
 
@@ -592,17 +638,21 @@ UNIT_NAMES = {"fc": "fully_contained_in", "sbc": "split_by_containment", "tw": "
 def report(ctx, acc):
     """turn findings into VIOLATION records (concrete ones shrunk first)"""
     done = Counter()
+    seen_small = set()
     conc = [x for x in acc["findings"] if x[0] == "concrete"]
     nfi = [x for x in acc["findings"] if x[0] == "nfi"]
     for sev, what, c, enc, im, mo in conc:
         unit = UNIT_NAMES[c[0]]
         if done[unit] >= 2:
             continue
-        done[unit] += 1
         small = shrink(c, lambda cc: fails_concretely(cc) is not None)
         r = fails_concretely(small)
         if r is None:
             small, r = c, (enc, what)
+        if (unit, lib.canon(small)) in seen_small:
+            continue
+        seen_small.add((unit, lib.canon(small)))
+        done[unit] += 1
         ctx.violation(unit, r[1], {"input": case_json(small, r[0]), "original": case_json(c, enc)})
     for sev, what, c, enc, im, mo in nfi:
         unit = UNIT_NAMES[c[0]]
@@ -668,15 +718,27 @@ def warm_up():
 
 def run(ctx):
     thorough = ctx.thorough
-    big = thorough or ctx.escalated()
+    # C17 uses none of the regenerated source constants: only drift of its own anchors escalates
+    big = thorough or bool(ctx.drift)
     nproc = min(16, os.cpu_count() or 4)
     rng = ctx.rng
+    import sys
+    import time
+    t0 = time.time()
+    phases = {}
+
+    def mark(name):
+        phases[name] = round(time.time() - t0, 1)
+        print("[c17] %s at %.1fs" % (name, time.time() - t0), file=sys.stderr)
+
     warm_up()
+    mark("warm-up")
     ctx.coverage["rule"] = (
         "Three-way comparison (real strax / extracted two-pointer model / extracted quadratic spec) per call. "
         "Exhaustive pairs: every start-sorted list of <=3 things x every start-sorted list of <=2 containers on a "
         "4-point grid with lengths 0..2 (thorough: <=4 things x <=2 containers and <=3 x <=3 on a 5-point grid), for "
-        "fully_contained_in, abs_time_to_prev_next_interval and touching_windows with every window in -2..3 "
+        "fully_contained_in, abs_time_to_prev_next_interval and touching_windows (quick: three of the six windows "
+        "-2..3 per pair, alternating (-2,0,2)/(-1,1,3); thorough: all six per pair) "
         "(split_by_containment / split_touching_windows on every 7th pair); a seeded random sample of the stated "
         "scope (<=4 things x <=3 containers, 6-point grid, lengths 0..3) and of larger arrays (<=60 x <=20, "
         "clustered overlaps, shared endpoints, zero gaps, zero lengths); a malformed stream (every unsorted / "
@@ -685,7 +747,7 @@ def run(ctx):
         "per-unit rule in harness/props/c17.py:judge (e.g. containment: both arrays non-empty and some thing "
         "starts within the span of the containers; malformed: a checked precondition is violated); distinct by "
         "canonical JSON of (unit, arguments).")
-    total = {"n": 0, "dist": Counter(), "nontriv": set(), "findings": [], "t1": None, "sbt": [], "samples": []}
+    tasks = []
 
     # --- A. exhaustive pairs -------------------------------------------------------------
     if thorough:
@@ -697,17 +759,15 @@ def run(ctx):
     for name, nth, nc, grid, ml, sbc_every in scopes:
         TH = list(gen.sorted_row_lists(nth, grid, ml))
         CS = list(gen.sorted_row_lists(nc, grid, ml))
-        _G[name] = (TH, CS, sbc_every, None)
-        acc = run_pool([(name, a, b) for a, b in chunks(len(TH), nproc * 6)], _pair_task, nproc)
-        merge(total, acc)
+        _G[name] = (TH, CS, sbc_every, None, thorough)
+        tasks += [(_pair_task, (name, a, b)) for a, b in chunks(len(TH), nproc * 4)]
 
     # --- B. malformed exhaustive (unsorted, negative lengths) ------------------------------
     cells = [(t, t + ln) for t in range(3) for ln in (-1, 0, 2)]
     TH = list(all_row_lists(3, cells))
     CS = list(all_row_lists(2, cells))
-    _G["B"] = (TH, CS, 11, {"fc": 1, "atp": 1, "tw": (0,), "sbc": 1, "stw": 1})
-    acc = run_pool([("B", a, b) for a, b in chunks(len(TH), nproc * 4)], _pair_task, nproc)
-    merge(total, acc)
+    _G["B"] = (TH, CS, 11, {"fc": 1, "atp": 1, "tw": (0,), "sbc": 1, "stw": 1}, True)
+    tasks += [(_pair_task, ("B", a, b)) for a, b in chunks(len(TH), nproc * 2)]
 
     # --- C. random: stated scope, larger arrays, mutated ----------------------------------
     cases = []
@@ -774,8 +834,10 @@ def run(ctx):
         kind = rng.choice([0, 0, 0, 1, 2, 3])
         cases += [("ssort", kind, keys), ("sargsort", kind, keys)]
     _G["C"] = cases
-    acc = run_pool([("C", a, b, True) for a, b in chunks(len(cases), nproc * 4)], _list_task, nproc)
-    merge(total, acc)
+    tasks += [(_list_task, ("C", a, b, True)) for a, b in chunks(len(cases), nproc * 3)]
+    mark("cases generated (%d tasks)" % len(tasks))
+    total = run_pool(tasks, nproc)
+    mark("pool done")
 
     # --- sort_by_time: spec predicate on the implementation's output -----------------------
     sbt = total["sbt"]
@@ -801,6 +863,7 @@ def run(ctx):
             total["findings"].append(("concrete", "sort_by_time is not stable on the single-key path: " + im,
                                       c, "endtime", im, mo))
 
+    mark("sort_by_time spec check")
     report(ctx, total)
 
     # --- T1: literal formula vs code on a zero-length thing at a container's end ------------
@@ -826,7 +889,9 @@ def run(ctx):
     for k, v in total["dist"].items():
         u, d = k.split(":", 1)
         per_unit.setdefault(UNIT_NAMES[u], Counter())[d] += v
-    nt = Counter(UNIT_NAMES[u] for u, _ in total["nontriv"])
+    nt = Counter()
+    for u, arrs in total["nontriv"].items():
+        nt[UNIT_NAMES[u]] += len(np.unique(np.concatenate(arrs)))
     for u, d in sorted(per_unit.items()):
         ctx.count(u, sum(d.values()), nt.get(u, 0), dict(d))
     for c, mo in total["samples"][:10]:
@@ -841,7 +906,10 @@ def run(ctx):
     sel = [pool_cases[i] for i in idxs]
     mouts = lib.run_model("C17", [line_of(c) for c in sel])
     eqs = [e for e in (coq_equation(c, mo) for c, mo in zip(sel, mouts)) if e]
+    mark("accounting")
     n, fails = lib.coq_crosscheck("C17", "From SV Require Import Model.Rows Model.Intervals Model.C17Run.", eqs, shard=120)
+    mark("kernel cross-check")
+    ctx.coverage["phase_seconds"] = phases
     ctx.coverage.setdefault("kernel_crosscheck", {})["C17"] = {"equations": n, "failed_files": len(fails)}
     if fails:
         ctx.violation("extraction", "extracted model and Coq vm_compute disagree: " + fails[0][-400:],
